@@ -11,6 +11,7 @@ import (
 	"strings"
 
 	"golang.org/x/tools/go/ssa"
+	"golang.org/x/tools/go/ssa/ssautil"
 )
 
 // Obligations that are decided without SMT: wiring terms over the SSA of constructor functions
@@ -22,6 +23,8 @@ type wiringSpec struct {
 	Routes   map[string]string `json:"routes"`   // path -> expected handler term (calls of <register>)
 	Register string            `json:"register"` // method name that registers a route, e.g. HandleFunc
 	Returns  string            `json:"returns"`  // expected term of the returned value ("" = unchecked)
+	Stores   map[string]string `json:"stores"`   // field-address term -> expected stored term
+	Calls    map[string]string `json:"calls"`    // callee name -> expected term(s) of its call sites (" | "-joined, sorted)
 	Props    []string          `json:"props"`
 }
 
@@ -29,6 +32,8 @@ func runTypeCheck(eng *Engine, name string) []*Obligation {
 	switch {
 	case strings.HasPrefix(name, "wiring:"):
 		return wiringObligations(eng, strings.TrimPrefix(name, "wiring:"))
+	case strings.HasPrefix(name, "callers:"):
+		return callerObligations(eng, strings.TrimPrefix(name, "callers:"))
 	case strings.HasPrefix(name, "templates:"):
 		return templateObligations(eng, strings.TrimPrefix(name, "templates:"))
 	}
@@ -118,6 +123,62 @@ func wiringObligations(eng *Engine, key string) []*Obligation {
 	if ws.Register != "" {
 		out = append(out, mkOb(ws.Function+"/wiring[no-unlisted-routes]", "wiring", "every registered route is listed in the wiring spec", len(extra) == 0, strings.Join(extra, "; "), ws.Props))
 	}
+	if len(ws.Stores) > 0 {
+		gotS := map[string][]string{}
+		for _, blk := range fn.Blocks {
+			for _, in := range blk.Instrs {
+				if st, ok := in.(*ssa.Store); ok {
+					if _, isF := st.Addr.(*ssa.FieldAddr); isF {
+						k := tb.term(st.Addr)
+						gotS[k] = append(gotS[k], tb.term(st.Val))
+					}
+				}
+			}
+		}
+		var keys []string
+		for k := range ws.Stores {
+			keys = append(keys, k)
+		}
+		sort.Strings(keys)
+		for _, k := range keys {
+			vs := gotS[k]
+			sort.Strings(vs)
+			g := strings.Join(uniq(vs), " | ")
+			if len(vs) == 0 {
+				var av []string
+				for k2 := range gotS {
+					av = append(av, k2)
+				}
+				sort.Strings(av)
+				g = "(no such store; stores: " + strings.Join(av, " ; ") + ")"
+			}
+			out = append(out, mkOb(fmt.Sprintf("%s/wiring[store %s]", ws.Function, k), "wiring", fmt.Sprintf("%s is assigned %s", k, ws.Stores[k]), g == ws.Stores[k], "found: "+g, ws.Props))
+		}
+	}
+	if len(ws.Calls) > 0 {
+		gotC := map[string][]string{}
+		for _, blk := range fn.Blocks {
+			for _, in := range blk.Instrs {
+				if ci, ok := in.(ssa.CallInstruction); ok {
+					n := callSiteName(ci.Common())
+					if _, want := ws.Calls[n]; want {
+						gotC[n] = append(gotC[n], tb.callTerm(ci.Common()))
+					}
+				}
+			}
+		}
+		var keys []string
+		for k := range ws.Calls {
+			keys = append(keys, k)
+		}
+		sort.Strings(keys)
+		for _, k := range keys {
+			vs := gotC[k]
+			sort.Strings(vs)
+			g := strings.Join(uniq(vs), " | ")
+			out = append(out, mkOb(fmt.Sprintf("%s/wiring[call %s]", ws.Function, k), "wiring", fmt.Sprintf("%s is called as %s", k, ws.Calls[k]), g == ws.Calls[k], "found: "+g, ws.Props))
+		}
+	}
 	if ws.Returns != "" {
 		var rets []string
 		for _, blk := range fn.Blocks {
@@ -184,6 +245,12 @@ func (tb *termBuilder) term(v ssa.Value) string {
 		fn := x.Fn.(*ssa.Function)
 		n := strings.TrimSuffix(fn.Name(), "$bound")
 		if strings.HasSuffix(fn.Name(), "$bound") {
+			// a method value: the receiver is shown unless it is the enclosing method's own receiver
+			if len(x.Bindings) == 1 {
+				if pr, ok := x.Bindings[0].(*ssa.Parameter); !ok || tb.fn.Signature.Recv() == nil || len(tb.fn.Params) == 0 || pr != tb.fn.Params[0] {
+					return n + "{" + tb.term(x.Bindings[0]) + "}"
+				}
+			}
 			return n
 		}
 		var bs []string
@@ -309,3 +376,62 @@ func (tb *termBuilder) callTerm(c *ssa.CallCommon) string {
 }
 
 func templateObligations(eng *Engine, key string) []*Obligation { return templateChecks(eng, key) }
+
+// callerObligations: "callee=caller1,caller2[@props]" — every call site of callee (a static callee's full name, or an
+// interface method's full name for invoke sites) inside the sso module lies in one of the listed functions.
+// This is the encapsulation fact a rely/guarantee argument about a private data structure needs.
+func callerObligations(eng *Engine, spec string) []*Obligation {
+	var props []string
+	if j := strings.Index(spec, "@"); j >= 0 {
+		props = strings.Split(spec[j+1:], ",")
+		spec = spec[:j]
+	}
+	j := strings.Index(spec, "=")
+	if j < 0 {
+		return []*Obligation{mkOb("callers["+spec+"]", "callers", "callers:<callee>=<callers>", false, "malformed", props)}
+	}
+	callee, allowed := spec[:j], map[string]bool{}
+	for _, a := range strings.Split(spec[j+1:], ",") {
+		allowed[a] = true
+	}
+	var fns []*ssa.Function
+	for fn := range ssautil.AllFunctions(eng.prog) {
+		if strings.HasPrefix(fnPkgPath(fn), modPrefix) && fn.Blocks != nil {
+			fns = append(fns, fn)
+		}
+	}
+	sort.Slice(fns, func(i, j int) bool { return fns[i].String() < fns[j].String() })
+	n := 0
+	var bad []string
+	for _, fn := range fns {
+		for _, b := range fn.Blocks {
+			for _, in := range b.Instrs {
+				ci, ok := in.(ssa.CallInstruction)
+				if !ok {
+					continue
+				}
+				cc := ci.Common()
+				name := ""
+				if cc.IsInvoke() {
+					name = cc.Method.FullName()
+				} else if sc := cc.StaticCallee(); sc != nil {
+					name = sc.String()
+				}
+				if name != callee && mangleShort(name) != callee {
+					continue
+				}
+				n++
+				if !allowed[shortFn(fn)] {
+					bad = append(bad, shortFn(fn))
+				}
+			}
+		}
+	}
+	sort.Strings(bad)
+	return []*Obligation{
+		mkOb("callers["+callee+"]", "callers", "every call of "+callee+" in the module is in: "+spec[j+1:], len(bad) == 0, "other callers: "+strings.Join(uniq(bad), ", "), props),
+		mkOb("callers["+callee+"]/found", "callers", "at least one call site of "+callee+" exists (vacuity guard)", n > 0, fmt.Sprintf("%d sites", n), props),
+	}
+}
+
+func mangleShort(s string) string { return strings.ReplaceAll(s, modPrefix+"internal/", "") }
